@@ -188,9 +188,6 @@ Proof.
   - intros e e' He He'. now apply Hnew.
 Qed.
 
-Lemma inv_change_seq m v q q' : Inv (mkS m v q) -> Inv (mkS m v q') \/ True.
-Proof. auto. Qed.
-
 Lemma Ordered_nomem v q q' : Ordered (mkS [] v q) -> Ordered (mkS [] v q').
 Proof. intros H k. exact (H k). Qed.
 
